@@ -1,6 +1,7 @@
 package main
 
 import (
+	"fmt"
 	"github.com/practable/relay/verifharness/lib"
 )
 
@@ -186,6 +187,13 @@ func buildWitness(c *Case) []WOp {
 
 // ---- Coq emission ------------------------------------------------------------------------------
 
+func (c Case) confOrCap() int {
+	if !c.Raw && c.Conf == 0 {
+		return c.Cap
+	}
+	return c.Conf
+}
+
 func coqStrs(ss []string) string {
 	xs := make([]string, len(ss))
 	for i, s := range ss {
@@ -216,7 +224,7 @@ func (c Case) coq() string {
 			o := c.Ops[wo.I]
 			switch o.K {
 			case "join":
-				ops = append(ops, lib.App("OJoin", lib.App("mkreq", lib.N(o.N), lib.Str("/session/"+c.Topic+o.TS), lib.Str(c.Topic+o.TS), coqStrs(o.Scopes), lib.Nat(c.Cap))))
+				ops = append(ops, lib.App("OJoin", lib.App("mkreq", lib.N(o.N), lib.Str("/session/"+c.Topic+o.TS), lib.Str(c.Topic+o.TS), coqStrs(o.Scopes), fmt.Sprintf("(effective_cap (%d)%%Z)", c.confOrCap()))))
 			case "leave":
 				ops = append(ops, lib.App("OLeave", lib.N(o.N)))
 			case "send":
